@@ -16,7 +16,7 @@ var Driver = core.Driver{ID: "C02", Level: "model_checking", Run: run, Replay: r
 
 var versions = []string{"1.0", "1.1", "1.2", "1.3", "1.4", "1.5", "1.6", "1.7", "2.0"}
 var encs = []string{"none", "user", "owner", "both"}
-var filtersSeekable = []string{"", "", "Flate", "ASCII85", "ASCIIHex+Flate", "RunLength", "LZW"}
+var filtersSeekable = []string{"", "", "Flate", "ASCII85", "ASCIIHex+Flate", "RunLength", "LZW", "Flate12+ASCIIHex+ASCII85", "ASCII85+LZW0+RunLength", "RunLength"}
 
 // Family is a pair of model constants.
 type Family struct{ ObjStm, Seekable bool }
@@ -351,7 +351,7 @@ func classifyFailure(r Run) (key, what string) {
 		return "reopen-failed/" + cfg, "the Reader cannot open the produced file: " + r.OpenErr
 	}
 	if r.Closed && !r.MetaOK {
-		return "meta/" + cfg, "version, ID, Info or Catalog did not round-trip"
+		return "meta/" + cfg, "version, ID, Info or Catalog did not round-trip: " + r.MetaDiff
 	}
 	if r.Closed {
 		got := map[[2]int]string{}
